@@ -33,6 +33,7 @@ def run(prog, rep, tier='quick'):
     rep.rule('error-sign', 'in arcovar / modcovar the returned error adds |b|^2 and b^H A a with opposite sign parity relative to the un-negated data matrix and the least-squares solution')
     rep.rule('exact-solve', 'lstsq is called without cond / rcond (no singular-value truncation)')
     rep.rule('marple-normalisation', 'size signature of the returned variances == 1/(N-p)')
+    rep.rule('admission', 'no guard on (N, order) raises on the grid N=6..12, order=1..N/2 (arcovar, modcovar and the Marple recursions)')
     rep.rule('guard-consistency', 'all raise-guards of one scalar inside a Marple recursion accept the same interval (open/closed ends included)')
     seen = set()
     cm = prog.func('linalg', 'corrmtx')
@@ -254,6 +255,13 @@ def run(prog, rep, tier='quick'):
             else:
                 rep.proved('guard-consistency', f.qname, 'validity tests of %s' % name, '%d test(s), all accept %s' % (len(lst), show_iv(kinds[0])),
                            loc(f.mod, f.node))
+    # the stated domain (N - p >= p) is admitted by all four estimators
+    from ..d1rules import admission_of
+    grid = [{'N': n_, 'Pa': p_} for n_ in range(6, 13) for p_ in range(1, n_ // 2 + 1)]
+    for mod, fname in (('covar', 'arcovar'), ('modcovar', 'modcovar'), ('covar', 'arcovar_marple'), ('modcovar', 'modcovar_marple')):
+        admission_of(rep, prog, 'admission', mod, fname,
+                     lambda: ([C.data(True, phase=False), IntV(Aff.sym('Pa'), frozenset(['order']))], {}), grid,
+                     lambda w: 'N = %d samples, order = %d' % (w['N'], w['Pa']), seen)
     rep.floor('guarded recursion scalars', n_g, 1)
     rep.floor('binding contexts', n_b, 8)
     rep.floor('marple contexts', n_m, 4)
